@@ -357,7 +357,18 @@ def exec (cfg : Cfg W) (results : List String) : Nat → Stmt → Env → W → 
         .ok (env, w, .next)
       | _ => .error "incdec"
     | .assign lhs tok rhs => do
-      let (vs, w) ← evalArgs cfg fuel rhs env w
+      -- `v, ok := m[k]`: the comma-ok form of a map read
+      let (vs, w) ← match lhs, rhs with
+        | [_, _], [.idx a i] => do
+          let (av, w) ← evalE cfg fuel a env w
+          let (iv, w) ← evalE cfg fuel i env w
+          match av with
+          | .strct fs => match recGet fs (keyStr iv) with
+            | some v => pure ([v, Val.bool true], w)
+            | none => pure ([Val.nil, Val.bool false], w)
+          | .nil => pure ([Val.nil, Val.bool false], w)
+          | _ => .error "comma-ok read of a non-map"
+        | _, _ => evalArgs cfg fuel rhs env w
       -- a single call returning a tuple spreads over several targets
       let vs := match vs, lhs with
         | [.tup l], _ :: _ :: _ => l
